@@ -60,14 +60,14 @@ def reader_segmentations(tier, seed):
 from .registry import replayer  # noqa: E402
 
 
-def _delayed_case(cut, gap, kind):
+def _delayed_case(cut, gap, kind, reload_in_gap=False):
     import asyncio
     from . import sessionharness as S
     from spec import wire as W
 
     async def go():
         sess = S.Session()
-        inp = {'message': kind, 'cut': cut, 'gap_s': gap}
+        inp = {'message': kind, 'cut': cut, 'gap_s': gap, 'reload_between_the_segments': reload_in_gap}
         try:
             try:
                 await sess.to_state('ESTABLISHED')
@@ -77,7 +77,11 @@ def _delayed_case(cut, gap, kind):
             m = S.msg(2, W.update_body(b'', attrs, bytes([24, 10, 0, 0]))) if kind == 'update' else S.KEEPALIVE
             before = sess.peer.stats.get('receive-' + kind, 0)
             await sess.remote.send(m[:cut])
-            await asyncio.sleep(gap)
+            await asyncio.sleep(gap / 2)
+            if reload_in_gap:
+                # a configuration reload (SIGUSR1) picked up by the main loop while the message is half read
+                sess.peer.reconfigure(sess.peer.neighbor)
+            await asyncio.sleep(gap / 2)
             await sess.remote.send(m[cut:])
             await asyncio.sleep(0.4)
             nots = [e for e in sess.log if e[0] == 'sent' and e[2] == 3]
@@ -100,16 +104,81 @@ def _delayed_case(cut, gap, kind):
 def delayed_segments(tier, seed):
     import multiprocessing as mp
 
-    cases = [(cut, gap, kind) for kind in ('update', 'keepalive') for cut in ((1, 10, 18, 19, 25, 40) if kind == 'update' else (1, 16, 18)) for gap in ((0.0, 0.15, 0.35) if tier == 'quick' else (0.0, 0.05, 0.15, 0.35, 1.1))]
+    cases = [(cut, gap, kind, False) for kind in ('update', 'keepalive') for cut in ((1, 10, 18, 19, 25, 40) if kind == 'update' else (1, 16, 18)) for gap in ((0.0, 0.15, 0.35) if tier == 'quick' else (0.0, 0.05, 0.15, 0.35, 1.1))]
+    cases += [(cut, 0.35, 'update', True) for cut in (10, 19, 25)]
     with mp.get_context('fork').Pool(8) as pool:
         res = pool.starmap(_delayed_case, cases)
     crashes = [r for r in res if r and r.get('harness')]
     if crashes:
         raise RuntimeError('session harness failed: ' + crashes[0]['what'])
     fails = [r for r in res if r]
-    return {'evaluations': len(cases), 'distinct_nontrivial': len(cases), 'bound': 'an UPDATE / KEEPALIVE sent to the real established Peer in two TCP segments, cut inside the marker, the length, right after the header and inside the body, with pauses of 0, 0.15, 0.35 s (thorough: also 0.05 and 1.1 s) -- shorter and longer than the 0.1 s read timeout of the main loop', 'rule': 'one case = (message, cut, pause)', 'samples': [{'message': 'update', 'cut': 10, 'gap_s': 0.35}], 'failures': fails}
+    return {'evaluations': len(cases), 'distinct_nontrivial': len(cases), 'bound': 'an UPDATE / KEEPALIVE sent to the real established Peer in two TCP segments, cut inside the marker, the length, right after the header and inside the body, with pauses of 0, 0.15, 0.35 s (thorough: also 0.05 and 1.1 s) -- shorter and longer than the 0.1 s read timeout of the main loop; and with a configuration reload handed to the peer between the two segments', 'rule': 'one case = (message, cut, pause)', 'samples': [{'message': 'update', 'cut': 10, 'gap_s': 0.35}], 'failures': fails}
 
 
 @replayer('C06', 'delayed-segments')
 def _replay_delayed(f):
-    return _delayed_case(f['input']['cut'], f['input']['gap_s'], f['input']['message']) is None
+    return _delayed_case(f['input']['cut'], f['input']['gap_s'], f['input']['message'], f['input'].get('reload_between_the_segments', False)) is None
+
+
+# ---------------------------------------------------------------------------------------------------------------------
+# the maximum the reader enforces is the NEGOTIATED one, whatever the order of the two OPENs: a neighbor with
+# `local-as auto` reads the peer's OPEN before it sends its own
+def _auto_as_case(size, extended):
+    import asyncio
+    import struct
+    from . import sessionharness as S
+    from spec import wire as W
+
+    async def go():
+        sess = S.Session(local_as='auto', extra='capability { extended-message %s; }' % ('enable' if extended else 'disable'))
+        inp = {'local_as': 'auto', 'extended_message_both_sides': extended, 'update_octets': size}
+        caps = bytes([1, 4, 0, 1, 0, 1]) + bytes([2, 0]) + bytes([6, 0]) + bytes([65, 4]) + struct.pack('!L', 65002)
+        try:
+            sess.start()
+            await asyncio.sleep(0.1)
+            await sess.remote.send(S.open_msg(caps=caps))
+            got = await sess.remote.read_message()
+            if got is None or got[0] != 1:
+                return {'what': f'harness: expected the OPEN of ExaBGP after ours, got {got}', 'input': inp, 'harness': True}
+            got = await sess.remote.read_message()
+            await sess.remote.send(S.KEEPALIVE)
+            await asyncio.sleep(0.4)
+            if sess.peer.fsm.name() != 'ESTABLISHED':
+                return {'what': f'harness: session not established ({sess.peer.fsm.name()})', 'input': inp, 'harness': True}
+            attrs = W.origin(0) + W.as_path([65002], True) + W.next_hop('192.0.2.1')
+            pad = size - 19 - 4 - len(attrs) - 4 - 4
+            body = W.update_body(b'', attrs + bytes([0x90, 99]) + struct.pack('!H', pad) + bytes(pad), bytes([24, 10, 0, 0]))
+            await sess.remote.send(S.msg(2, body))
+            await asyncio.sleep(0.5)
+            nots = [e for e in sess.log if e[0] == 'sent' and e[2] == 3]
+            state = sess.peer.fsm.name()
+            sess.peer.teardown(2)
+            await sess.finish(4)
+            accepted = not nots and state == 'ESTABLISHED'
+            should = size <= (65535 if extended else 4096)
+            if accepted != should:
+                return {'what': f'an UPDATE of {size} octets on a local-as auto session (extended messages {"negotiated" if extended else "not negotiated"}) was ' + ('accepted' if accepted else f'refused with NOTIFICATION {nots[0][3][0]}/{nots[0][3][1]}' if nots else f'not accepted (state {state})'), 'input': inp}
+            return None
+        finally:
+            sess.cleanup()
+
+    return S.run(go(), 30)
+
+
+@bounded('C06', 'negotiated-size-whatever-the-open-order')
+def negotiated_size_whatever_the_open_order(tier, seed):
+    import multiprocessing as mp
+
+    cases = [(4096, True), (5000, True), (4096, False), (5000, False)]
+    with mp.get_context('fork').Pool(4) as pool:
+        res = pool.starmap(_auto_as_case, cases)
+    crashes = [r for r in res if r and r.get('harness')]
+    if crashes:
+        raise RuntimeError('session harness failed: ' + crashes[0]['what'])
+    fails = [r for r in res if r]
+    return {'evaluations': len(cases), 'distinct_nontrivial': len(cases), 'bound': 'local-as auto neighbor (reads the peer OPEN first) x extended messages negotiated or not x an UPDATE of 4096 / 5000 octets: real Peer over loopback TCP', 'rule': 'one case = (extended, size)', 'samples': [{'extended': True, 'size': 5000}], 'failures': fails}
+
+
+@replayer('C06', 'negotiated-size-whatever-the-open-order')
+def _replay_auto(f):
+    return _auto_as_case(f['input']['update_octets'], f['input']['extended_message_both_sides']) is None
